@@ -32,7 +32,9 @@ static std::string described()
 
 using CV = std::vector<char const*>;
 using PV = std::vector<int*>;
+struct S { char const* name; int* ptr; };
 struct M {
+  MAKE_MOCK1(s, void(S const&));
   MAKE_MOCK1(r, void(CV const&));
   MAKE_MOCK1(p, void(PV const&));
   MAKE_MOCK1(c, void(char const*));
@@ -96,6 +98,17 @@ int main()
   SCALAR_CASE("any_of", trompeloeil::any_of(A, NUL), trompeloeil::any_of(A, STAND_IN), "zzz");
   SCALAR_CASE("all_of", trompeloeil::all_of(A, NUL), trompeloeil::all_of(A, STAND_IN), "zzz");
   SCALAR_CASE("none_of", trompeloeil::none_of(trompeloeil::ne(A), NUL), trompeloeil::none_of(trompeloeil::ne(A), STAND_IN), "zzz");
+
+  {
+    // MEMBER_IS(member, value): the value it holds (rvalue forms; an lvalue operand does not compile)
+    std::string dn, ds, dp;
+    { M m; last.clear(); { ALLOW_CALL(m, s(MEMBER_IS(&S::name, static_cast<char const*>(nullptr)))); S v{"x", nullptr}; try { m.s(v); } catch (Reported const&) {} } dn = described(); }
+    { M m; last.clear(); { ALLOW_CALL(m, s(MEMBER_IS(&S::name, static_cast<char const*>("nullptr")))); S v{"x", nullptr}; try { m.s(v); } catch (Reported const&) {} } ds = described(); }
+    check(dn == ds && dn.find("nullptr") != std::string::npos, "MEMBER_IS: a null char const* value is described as nullptr and the report is complete",
+          "with the null value <" + dn + "> with the string \"nullptr\" in its place <" + ds + ">");
+    { M m; last.clear(); { ALLOW_CALL(m, s(MEMBER_IS(&S::ptr, static_cast<int*>(nullptr)))); int i = 0; S v{"x", &i}; try { m.s(v); } catch (Reported const&) {} } dp = described(); }
+    check(dp.find("nullptr") != std::string::npos, "MEMBER_IS: a null int* value is described as nullptr", "<" + dp + ">");
+  }
 
   std::printf("DONE failed=%d\n", failed);
   return failed ? 1 : 0;
